@@ -729,6 +729,26 @@ impl<'a> Lifter<'a> {
                     &format!("({})", vs.iter().map(|x| x.ty.clone()).collect::<Vec<_>>().join(", ")),
                 ))
             }
+            Expr::Struct(s) if s.path.segments.len() >= 2 && {
+                // `Enum::V { f: e, .. }` of a lifted enum with struct variants (registered by lenum as `L_Enum::V{}`)
+                let mut segs: Vec<String> = s.path.segments.iter().map(|x| x.ident.to_string()).collect();
+                if segs[0] == "Self" { if let Some(st) = &self.self_ty { segs[0] = st.clone(); } }
+                if let Some(t) = self.reg.types.get(&segs[0]) { if t.starts_with("L_") { segs[0] = t.clone(); } }
+                self.reg.types.contains_key(&format!("{}{{}}", segs.join("::")))
+            } => {
+                let mut segs: Vec<String> = s.path.segments.iter().map(|x| x.ident.to_string()).collect();
+                if segs[0] == "Self" { if let Some(st) = &self.self_ty { segs[0] = st.clone(); } }
+                if let Some(t) = self.reg.types.get(&segs[0]) { if t.starts_with("L_") { segs[0] = t.clone(); } }
+                let full = segs.join("::");
+                let enum_ty = segs[..segs.len() - 1].join("::");
+                let mut parts = Vec::new();
+                for fv in &s.fields {
+                    let syn::Member::Named(n) = &fv.member else { return unsupported("tuple struct literal", e) };
+                    let x = self.expr(&fv.expr)?;
+                    parts.push(format!("{n}: {}", x.text));
+                }
+                Ok(v(format!("{full} {{ {} }}", parts.join(", ")), &enum_ty))
+            }
             Expr::Struct(s) => {
                 let mut name = Self::path_str(&s.path);
                 if name == "Self" {
